@@ -14,8 +14,8 @@ watch-stream / orchestrator / retry contracts:
 
 Findings of this file (native reproductions in /verif/findings, entries in /verif/known_findings.d/w2d.json):
   F-C19-1 / F-C19-2  re-listed namespaces / CRDs (event type None, e.g. after a 410 Gone) are ignored   (O6)
-  F-C19-3            a DELETED namespace event with a pending termination condition keeps the namespace served   (O5)
-  F-C19-4            two ambiguous selectors with overlapping candidates: one candidate is served (order dependent)   (O7)
+  F-C19-3 (FIXED)    a DELETED namespace event with a pending termination condition kept the namespace served    (O5)
+  F-C19-4 (FIXED)    two ambiguous selectors with overlapping candidates: one candidate was served (order dependent)  (O7)
   F-C19-5            a group-limited re-scan forgets the other group's disabled candidate: ambiguous selector served   (O7)
 """
 import asyncio
@@ -198,7 +198,7 @@ def O5(vc):
         pending = And(it['marked'], it['has_conditions'], it['blocked'], Not(really))
         live = And(Not(really), Not(And(it['marked'], it['has_conditions'])))
         matched = Or(*[match_namespace(n, p) for p in patterns]) if patterns else False
-        vc.ensure('deleted_event_removes', Implies(really, not now), excuse={'F-C19-3': it['blocked']})
+        vc.ensure('deleted_event_removes', Implies(really, not now))    # F-C19-3 (fixed in 1c1179f) was found here
         vc.ensure('terminated_removed', Implies(terminated, not now))
         vc.ensure('pending_termination_unchanged', Implies(pending, now == was))
         vc.ensure('live_matching_added', Implies(And(live, matched), now))
@@ -478,7 +478,7 @@ def O7(b):
                 if not rescan:
                     b.check('every_suitable_unambiguous_selection_watched', expected <= W, w)
                     if overlapping:
-                        b.check('ambiguous_not_served.overlapping', not (W & amb_union), w, excuse='F-C19-4')
+                        b.check('ambiguous_not_served.overlapping', not (W & amb_union), w)     # F-C19-4 (fixed in 1c03f6c) was found here
                     else:
                         b.check('ambiguous_not_served', not (W & amb_union), w)
                 else:
@@ -491,7 +491,7 @@ def O7(b):
                             excuse='F-C19-5')
                     by_forgotten = set().union(set(), *[c for c in ambiguous.values() if c & forgotten])
                     if overlapping:
-                        b.check('ambiguous_not_served.overlapping', not (W & (amb_union - by_forgotten)), w, excuse='F-C19-4')
+                        b.check('ambiguous_not_served.overlapping', not (W & (amb_union - by_forgotten)), w)
                     else:
                         b.check('ambiguous_not_served', not (W & (amb_union - by_forgotten)), w)
                     b.check('ambiguous_not_served.after_group_rescan', not (W & by_forgotten), w, excuse='F-C19-5')
